@@ -1,13 +1,13 @@
 SPECIFICATION Spec
 CONSTANTS
-    Groups = {"a", "b"}
+    Groups = {"a"}
     Kinds = {"int", "float", "str", "none"}
     Values = {2}
-    Cfgs <- MCLifeQuick
-    Modes = {"batch", "stream"}
-    MaxBatches = 3
-    MaxPts = 2
-    MaxStream = 3
+    Cfgs <- MCAllDefault
+    Modes = {"stream"}
+    MaxBatches = 5
+    MaxPts = 3
+    MaxStream = 7
     BuggyCache = FALSE
 INVARIANTS
     TypeOK
